@@ -4,10 +4,11 @@ sys.path.insert(0, os.path.dirname(os.path.abspath(__file__)))
 props = [json.loads(l) for l in open('properties.jsonl')]
 man = json.load(open('MANIFEST.json'))
 checks = []; na = []; served = []
+enabled = set(open('enabled_checks.txt').read().split())
 for p in props:
     pid = p['id']
     path = f'checks/{pid.lower()}.py'
-    if os.path.exists(path):
+    if os.path.exists(path) and pid in enabled:
         mod = importlib.import_module(f'checks.{pid.lower()}')
         e = getattr(mod, 'MANIFEST_ENTRY', None)
         if e and not getattr(mod, 'DISABLED', False):
